@@ -60,6 +60,8 @@ type Config struct {
 	HoldPct     int // per mempool transaction and block, inside the fault window: held back
 	FaultBlocks int // the fault window: faults are injected while height < FaultBlocks
 	Rerun       bool
+	Slow        int  // member whose calls are starved inside the fault window (-1: nobody)
+	SlowPct     int  // probability that a decision passes over the slow member's parked calls
 	Upgrade     bool // the chain is first deployed with older-version executables; Deploy must upgrade them
 	Liveness    int  // B: blocks allowed after the last fault
 	Bootstrap   int  // B1: blocks allowed for the Notary bootstrap with late members absent
@@ -286,7 +288,7 @@ func RunSim(t *testing.T, cfg Config) (res *Result) {
 				return
 			}
 		}
-		s.logf("config n=%d random=%v blockQuanta=%d late=%v crashes=%v rpcErr=%d evt=%d hold=%d window=%d rerun=%v", cfg.N, cfg.SchedRandom, cfg.BlockQuanta, cfg.Late, cfg.Crashes, cfg.RPCErrPct, cfg.EvtPct, cfg.HoldPct, cfg.FaultBlocks, cfg.Rerun)
+		s.logf("config n=%d random=%v blockQuanta=%d late=%v crashes=%v rpcErr=%d evt=%d hold=%d window=%d rerun=%v slow=%d/%d upgrade=%v", cfg.N, cfg.SchedRandom, cfg.BlockQuanta, cfg.Late, cfg.Crashes, cfg.RPCErrPct, cfg.EvtPct, cfg.HoldPct, cfg.FaultBlocks, cfg.Rerun, cfg.Slow, cfg.SlowPct, cfg.Upgrade)
 		for _, l := range cfg.Late {
 			s.lateHeld[l] = true
 			s.inject("member.late")
@@ -472,6 +474,21 @@ func (s *sim) loop() {
 		// ---- parked calls
 		parked := s.c.gate.Take()
 		if len(parked) > 0 {
+			// a slow member: its parked calls are passed over (while others have
+			// something to do) with the configured probability
+			if cfg.Slow >= 0 && s.inWindow() && s.rng.IntN(100) < cfg.SlowPct {
+				var rest []*parkedCall
+				for _, p := range parked {
+					if p.member != cfg.Slow {
+						rest = append(rest, p)
+					}
+				}
+				if len(rest) > 0 && len(rest) < len(parked) {
+					parked = rest
+					s.inject("rpc.slow")
+					s.fired("rpc.slow")
+				}
+			}
 			p := parked[s.pick(len(parked))]
 			if !p.write && s.inWindow() && cfg.RPCErrPct > 0 && s.rng.IntN(100) < cfg.RPCErrPct {
 				s.inject("rpc.error")
@@ -501,7 +518,7 @@ func (s *sim) loop() {
 }
 
 func (s *sim) anyWindowFault() bool {
-	return s.cfg.RPCErrPct > 0 || s.cfg.EvtPct > 0 || s.cfg.HoldPct > 0
+	return s.cfg.RPCErrPct > 0 || s.cfg.EvtPct > 0 || s.cfg.HoldPct > 0 || s.cfg.Slow >= 0
 }
 
 // deliver hands one queued block / notary-request event to one subscriber.
